@@ -10,6 +10,8 @@ import vlib
 ok_all = True
 rc, out = vlib.sh("python3 %s/tools/gen_crc.py %s %s/coq/base/GenCrc.v" % (vlib.VERIF, vlib.REPO, vlib.VERIF))
 print(out.strip())
+rc, out = vlib.sh("python3 %s/tools/gen_stream.py %s %s/coq/codec/GenStream.v" % (vlib.VERIF, vlib.REPO, vlib.VERIF))
+print(out.strip())
 # Coq directories in dependency order: base first, then every other directory with a _CoqProject
 dirs = [os.path.join(vlib.VERIF, "coq", "base")]
 for cp in sorted(glob.glob(os.path.join(vlib.VERIF, "coq", "*", "_CoqProject"))):
